@@ -309,7 +309,14 @@ def cargo_build(bins, release=False, package=None, timeout=3000):
                 open(lock, "w").write(src)
         except FileNotFoundError:
             pass
+        sh([os.path.join(VERIF, "tools", "sync_workspace.py")], timeout=60)
         rc, out = sh(cmd, cwd=HARNESS, timeout=timeout)
+        tries = 0
+        while rc != 0 and "failed to load manifest for workspace member" in out and tries < 5:
+            # another crate of the workspace is being created right now; transient
+            time.sleep(20)
+            tries += 1
+            rc, out = sh(cmd, cwd=HARNESS, timeout=timeout)
     return rc == 0, out
 
 
